@@ -451,6 +451,9 @@ class Controller(object):
                 kmin, linalg_error = self.choose_point_to_replace(xnew - self.model.xopt(), skip_kopt=True)
 
                 if linalg_error:
+                    # the new point has been evaluated but cannot be added to the model: keep it if it is the best so far
+                    self.model.save_point(x, np.mean(rvec_list[:num_samples_run, :], axis=0), num_samples_run, self.nx,
+                                          x_in_abs_coords=True)
                     exit_info = ExitInformation(EXIT_LINALG_ERROR, "Singular matrix when finding kmin (in main loop)")
                     return exit_info  # return & quit
 
